@@ -5,46 +5,305 @@ import RelicVerif.Lemmas.BnLowAdd
 
 namespace Relic.Model
 
+theorem two_pow_split {w bits : Nat} (h : bits ≤ w) : 2 ^ w = 2 ^ (w - bits) * 2 ^ bits := by
+  rw [← Nat.pow_add]; congr 1; omega
+
+/-- one digit of a left shift by `bits` -/
+theorem lsh_digit (w bits a carry : Nat) (hbw : bits ≤ w) (ha : a < 2 ^ w) (hc : carry < 2 ^ bits) :
+    ((a <<< bits) % 2 ^ w ||| carry) + (a >>> (w - bits)) * 2 ^ w = 2 ^ bits * a + carry
+    ∧ ((a <<< bits) % 2 ^ w ||| carry) < 2 ^ w ∧ a >>> (w - bits) < 2 ^ bits := by
+  have hs := two_pow_split hbw
+  generalize hS : 2 ^ (w - bits) = S at hs
+  have hSpos : 0 < S := by rw [← hS]; exact Nat.two_pow_pos _
+  have e1 : (a <<< bits) % 2 ^ w = (a % S) <<< bits := by
+    rw [Nat.shiftLeft_eq, Nat.shiftLeft_eq, hs, Nat.mul_mod_mul_right]
+  rw [e1, ← Nat.shiftLeft_add_eq_or_of_lt hc, Nat.shiftLeft_eq, Nat.shiftRight_eq_div_pow, hS]
+  have hdm := Nat.div_add_mod a S
+  have hml : a % S < S := Nat.mod_lt _ hSpos
+  have h2 : (a % S + 1) * 2 ^ bits ≤ S * 2 ^ bits := Nat.mul_le_mul_right _ hml
+  refine ⟨?_, ?_, ?_⟩
+  · rw [hs]; grind
+  · rw [hs]; grind
+  · rw [Nat.div_lt_iff_lt_mul hSpos, Nat.mul_comm, ← hs]; exact ha
+
+/-- one digit of a right shift by `bits` -/
+theorem rsh_digit (w bits a carry : Nat) (hbw : bits ≤ w) (ha : a < 2 ^ w) (hc : carry < 2 ^ bits) :
+    2 ^ bits * (a >>> bits ||| (carry <<< (w - bits)) % 2 ^ w) + a % 2 ^ bits = a + carry * 2 ^ w
+    ∧ (a >>> bits ||| (carry <<< (w - bits)) % 2 ^ w) < 2 ^ w := by
+  have hs := two_pow_split hbw
+  have hSpos : 0 < 2 ^ (w - bits) := Nat.two_pow_pos _
+  have hTpos : 0 < 2 ^ bits := Nat.two_pow_pos _
+  have h2 : (carry + 1) * 2 ^ (w - bits) ≤ 2 ^ bits * 2 ^ (w - bits) := Nat.mul_le_mul_right _ hc
+  have e1 : (carry <<< (w - bits)) % 2 ^ w = carry <<< (w - bits) := by
+    apply Nat.mod_eq_of_lt
+    rw [Nat.shiftLeft_eq, hs]; grind
+  have hlt : a >>> bits < 2 ^ (w - bits) := by
+    rw [Nat.shiftRight_eq_div_pow, Nat.div_lt_iff_lt_mul hTpos, ← hs]; exact ha
+  rw [e1, Nat.or_comm, ← Nat.shiftLeft_add_eq_or_of_lt hlt, Nat.shiftLeft_eq,
+    Nat.shiftRight_eq_div_pow]
+  have hdm := Nat.div_add_mod a (2 ^ bits)
+  have hq : a / 2 ^ bits < 2 ^ (w - bits) := by
+    rw [Nat.div_lt_iff_lt_mul hTpos, ← hs]; exact ha
+  generalize 2 ^ (w - bits) = S at *
+  generalize 2 ^ bits = T at *
+  refine ⟨?_, ?_⟩
+  · rw [hs]; grind
+  · rw [hs]; grind
+
+theorem val_reverse_cons (B x : Nat) (xs : List Nat) :
+    val B (x :: xs).reverse = val B xs.reverse + B ^ xs.length * x := by
+  simp [val_append, val]
+
+theorem forall_mem_reverse {B : Nat} {l : List Nat} (h : ∀ d ∈ l, d < B) :
+    ∀ d ∈ l.reverse, d < B := by
+  intro d hd; exact h d (by simpa using hd)
+
+theorem div1LowRev_spec (B : Nat) (b : Nat) (hb0 : 0 < b) :
+    ∀ (l : List Nat) (wd : Nat), wd < b → (∀ d ∈ l, d < B) →
+      val B (div1LowRev B b l wd).1.reverse * b + (div1LowRev B b l wd).2
+        = wd * B ^ l.length + val B l.reverse
+      ∧ (div1LowRev B b l wd).2 < b
+      ∧ (∀ d ∈ (div1LowRev B b l wd).1, d < B) ∧ (div1LowRev B b l wd).1.length = l.length := by
+  intro l
+  induction l with
+  | nil => intro wd hwd _; simp [div1LowRev, val, hwd]
+  | cons x xs ih =>
+    intro wd hwd hl
+    have hx : x < B := hl x (by simp)
+    have hl' : ∀ d ∈ xs, d < B := fun d hd => hl d (by simp [hd])
+    have hn : wd * B + x < B * b := by
+      have : (wd + 1) * B ≤ b * B := Nat.mul_le_mul_right _ hwd
+      grind
+    have hq : (wd * B + x) / b < B := by
+      rw [Nat.div_lt_iff_lt_mul hb0]; exact hn
+    have e1 : (wd * B + x) / b % B = (wd * B + x) / b := Nat.mod_eq_of_lt hq
+    have hr : (wd * B + x) % b < b := Nat.mod_lt _ hb0
+    have heq : div1LowRev B b (x :: xs) wd =
+        ((wd * B + x) / b :: (div1LowRev B b xs ((wd * B + x) % b)).1,
+          (div1LowRev B b xs ((wd * B + x) % b)).2) := by
+      simp only [div1LowRev, e1]
+    obtain ⟨ih1, ih2, ih3, ih4⟩ := ih _ hr hl'
+    rw [heq]
+    refine ⟨?_, ih2, forall_mem_cons_of hq ih3, by simp [ih4]⟩
+    simp only [val_reverse_cons, ih4, List.length_cons, Nat.pow_succ]
+    have hdm := Nat.div_add_mod (wd * B + x) b
+    grind
+
 theorem lsh1Low_spec (w : Nat) (hw : 0 < w) :
     ∀ (a : List Nat) (carry : Nat), carry ≤ 1 → (∀ d ∈ a, d < 2 ^ w) →
       val (2 ^ w) (lsh1Low w a carry).1 + (lsh1Low w a carry).2 * (2 ^ w) ^ a.length
         = 2 * val (2 ^ w) a + carry
       ∧ (lsh1Low w a carry).2 ≤ 1
       ∧ (∀ d ∈ (lsh1Low w a carry).1, d < 2 ^ w) ∧ (lsh1Low w a carry).1.length = a.length := by
-  sorry
+  intro a
+  induction a with
+  | nil => intro carry hc _; simp [lsh1Low, val, hc]
+  | cons x xs ih =>
+    intro carry hc ha
+    have hx : x < 2 ^ w := ha x (by simp)
+    have ha' : ∀ d ∈ xs, d < 2 ^ w := fun d hd => ha d (by simp [hd])
+    obtain ⟨d1, d2, d3⟩ := lsh_digit w 1 x carry hw hx (by omega)
+    have heq : lsh1Low w (x :: xs) carry =
+        (((x <<< 1) % 2 ^ w ||| carry) :: (lsh1Low w xs (x >>> (w - 1))).1,
+          (lsh1Low w xs (x >>> (w - 1))).2) := by
+      simp only [lsh1Low]
+    obtain ⟨ih1, ih2, ih3, ih4⟩ := ih (x >>> (w - 1)) (by omega) ha'
+    rw [heq]
+    refine ⟨?_, ih2, forall_mem_cons_of d2 ih3, by simp [ih4]⟩
+    simp only [val, List.length_cons, Nat.pow_succ]
+    grind
 
+-- `hb0` is not needed by the proof (for bits = 0 the model happens to agree); kept for the C precondition
+set_option linter.unusedVariables false in
 theorem lshbLow_spec (w bits : Nat) (hb0 : 0 < bits) (hbw : bits < w) :
     ∀ (a : List Nat) (carry : Nat), carry < 2 ^ bits → (∀ d ∈ a, d < 2 ^ w) →
       val (2 ^ w) (lshbLow w bits a carry).1 + (lshbLow w bits a carry).2 * (2 ^ w) ^ a.length
         = 2 ^ bits * val (2 ^ w) a + carry
       ∧ (lshbLow w bits a carry).2 < 2 ^ bits
       ∧ (∀ d ∈ (lshbLow w bits a carry).1, d < 2 ^ w) ∧ (lshbLow w bits a carry).1.length = a.length := by
-  sorry
+  have hmask : mask w bits = 2 ^ bits - 1 := by
+    simp only [mask, if_neg (show ¬ bits ≥ w by omega), Nat.mod_eq_of_lt hbw]
+  intro a
+  induction a with
+  | nil => intro carry hc _; simp [lshbLow, val, hc]
+  | cons x xs ih =>
+    intro carry hc ha
+    have hx : x < 2 ^ w := ha x (by simp)
+    have ha' : ∀ d ∈ xs, d < 2 ^ w := fun d hd => ha d (by simp [hd])
+    obtain ⟨d1, d2, d3⟩ := lsh_digit w bits x carry (by omega) hx hc
+    have er : (x >>> (w - bits)) &&& mask w bits = x >>> (w - bits) := by
+      rw [hmask, Nat.and_two_pow_sub_one_eq_mod, Nat.mod_eq_of_lt d3]
+    have heq : lshbLow w bits (x :: xs) carry =
+        (((x <<< bits) % 2 ^ w ||| carry) :: (lshbLow w bits xs (x >>> (w - bits))).1,
+          (lshbLow w bits xs (x >>> (w - bits))).2) := by
+      simp only [lshbLow, er]
+    obtain ⟨ih1, ih2, ih3, ih4⟩ := ih (x >>> (w - bits)) d3 ha'
+    rw [heq]
+    refine ⟨?_, ih2, forall_mem_cons_of d2 ih3, by simp [ih4]⟩
+    simp only [val, List.length_cons, Nat.pow_succ]
+    grind
+
+theorem rsh1LowRev_spec (w : Nat) (hw : 0 < w) :
+    ∀ (l : List Nat) (carry : Nat), carry ≤ 1 → (∀ d ∈ l, d < 2 ^ w) →
+      2 * val (2 ^ w) (rsh1LowRev w l carry).1.reverse + (rsh1LowRev w l carry).2
+        = carry * (2 ^ w) ^ l.length + val (2 ^ w) l.reverse
+      ∧ (rsh1LowRev w l carry).2 ≤ 1
+      ∧ (∀ d ∈ (rsh1LowRev w l carry).1, d < 2 ^ w) ∧ (rsh1LowRev w l carry).1.length = l.length := by
+  intro l
+  induction l with
+  | nil => intro carry hc _; simp [rsh1LowRev, val, hc]
+  | cons x xs ih =>
+    intro carry hc hl
+    have hx : x < 2 ^ w := hl x (by simp)
+    have hl' : ∀ d ∈ xs, d < 2 ^ w := fun d hd => hl d (by simp [hd])
+    obtain ⟨d1, d2⟩ := rsh_digit w 1 x carry hw hx (by omega)
+    have heq : rsh1LowRev w (x :: xs) carry =
+        ((x >>> 1 ||| (carry <<< (w - 1)) % 2 ^ w) :: (rsh1LowRev w xs (x % 2)).1,
+          (rsh1LowRev w xs (x % 2)).2) := by
+      simp only [rsh1LowRev, Nat.and_one_is_mod]
+    obtain ⟨ih1, ih2, ih3, ih4⟩ := ih (x % 2) (by omega) hl'
+    rw [heq]
+    refine ⟨?_, ih2, forall_mem_cons_of d2 ih3, by simp [ih4]⟩
+    simp only [val_reverse_cons, ih4, List.length_cons, Nat.pow_succ]
+    simp only [Nat.pow_one] at d1
+    grind
 
 theorem rsh1Low_spec (w : Nat) (hw : 0 < w) (a : List Nat) (ha : ∀ d ∈ a, d < 2 ^ w) :
     val (2 ^ w) (rsh1Low w a).1 = val (2 ^ w) a / 2 ∧ (a ≠ [] → (rsh1Low w a).2 = val (2 ^ w) a % 2)
     ∧ (∀ d ∈ (rsh1Low w a).1, d < 2 ^ w) ∧ (rsh1Low w a).1.length = a.length := by
-  sorry
+  obtain ⟨h1, h2, h3, h4⟩ := rsh1LowRev_spec w hw a.reverse 0 (by omega) (forall_mem_reverse ha)
+  have heq : rsh1Low w a = ((rsh1LowRev w a.reverse 0).1.reverse, (rsh1LowRev w a.reverse 0).2) := by
+    simp only [rsh1Low]
+  rw [heq]
+  simp only [List.reverse_reverse, Nat.zero_mul, Nat.zero_add] at h1
+  dsimp only
+  refine ⟨by omega, fun _ => by omega, forall_mem_reverse h3, by simpa using h4⟩
+
+theorem rshbLowRev_spec (w bits : Nat) (hbw : bits < w) :
+    ∀ (l : List Nat) (carry : Nat), carry < 2 ^ bits → (∀ d ∈ l, d < 2 ^ w) →
+      2 ^ bits * val (2 ^ w) (rshbLowRev w bits l carry).1.reverse + (rshbLowRev w bits l carry).2
+        = carry * (2 ^ w) ^ l.length + val (2 ^ w) l.reverse
+      ∧ (rshbLowRev w bits l carry).2 < 2 ^ bits
+      ∧ (∀ d ∈ (rshbLowRev w bits l carry).1, d < 2 ^ w)
+      ∧ (rshbLowRev w bits l carry).1.length = l.length := by
+  have hmask : mask w bits = 2 ^ bits - 1 := by
+    simp only [mask, if_neg (show ¬ bits ≥ w by omega), Nat.mod_eq_of_lt hbw]
+  intro l
+  induction l with
+  | nil => intro carry hc _; simp [rshbLowRev, val, hc]
+  | cons x xs ih =>
+    intro carry hc hl
+    have hx : x < 2 ^ w := hl x (by simp)
+    have hl' : ∀ d ∈ xs, d < 2 ^ w := fun d hd => hl d (by simp [hd])
+    have hr : x % 2 ^ bits < 2 ^ bits := Nat.mod_lt _ (Nat.two_pow_pos _)
+    have key : ∃ c, c < 2 ^ w ∧ 2 ^ bits * c + x % 2 ^ bits = x + carry * 2 ^ w ∧
+        rshbLowRev w bits (x :: xs) carry =
+          (c :: (rshbLowRev w bits xs (x % 2 ^ bits)).1,
+            (rshbLowRev w bits xs (x % 2 ^ bits)).2) := by
+      by_cases hb : bits = 0
+      · subst hb
+        have hc0 : carry = 0 := by simpa using hc
+        subst hc0
+        refine ⟨x, hx, by simp [Nat.mod_one], ?_⟩
+        simp [rshbLowRev, hmask, Nat.mod_one]
+      · obtain ⟨d1, d2⟩ := rsh_digit w bits x carry (by omega) hx hc
+        have es : (w - bits) % w = w - bits := Nat.mod_eq_of_lt (by omega)
+        refine ⟨_, d2, d1, ?_⟩
+        simp only [rshbLowRev, es, hmask, Nat.and_two_pow_sub_one_eq_mod]
+    obtain ⟨c, hc1, hc2, heq⟩ := key
+    obtain ⟨ih1, ih2, ih3, ih4⟩ := ih (x % 2 ^ bits) hr hl'
+    rw [heq]
+    refine ⟨?_, ih2, forall_mem_cons_of hc1 ih3, by simp [ih4]⟩
+    simp only [val_reverse_cons, ih4, List.length_cons, Nat.pow_succ]
+    grind
 
 /-- also valid for bits = 0 (the `% RLC_DIG` guard on the shift amount) -/
 theorem rshbLow_spec (w bits : Nat) (hbw : bits < w) (a : List Nat) (ha : ∀ d ∈ a, d < 2 ^ w) :
     val (2 ^ w) (rshbLow w bits a).1 = val (2 ^ w) a / 2 ^ bits
     ∧ (a ≠ [] → (rshbLow w bits a).2 = val (2 ^ w) a % 2 ^ bits)
     ∧ (∀ d ∈ (rshbLow w bits a).1, d < 2 ^ w) ∧ (rshbLow w bits a).1.length = a.length := by
-  sorry
+  obtain ⟨h1, h2, h3, h4⟩ :=
+    rshbLowRev_spec w bits hbw a.reverse 0 (Nat.two_pow_pos _) (forall_mem_reverse ha)
+  have heq : rshbLow w bits a =
+      ((rshbLowRev w bits a.reverse 0).1.reverse, (rshbLowRev w bits a.reverse 0).2) := by
+    simp only [rshbLow]
+  rw [heq]
+  simp only [List.reverse_reverse, Nat.zero_mul, Nat.zero_add] at h1
+  refine ⟨?_, fun _ => ?_, forall_mem_reverse h3, by simpa using h4⟩
+  · rw [← h1, Nat.mul_add_div (Nat.two_pow_pos _), Nat.div_eq_of_lt h2, Nat.add_zero]
+  · rw [← h1, Nat.mul_add_mod, Nat.mod_eq_of_lt h2]
 
+set_option linter.unusedVariables false in
 /-- bn_div1_low: schoolbook short division -/
 theorem div1Low_spec (B : Nat) (hB : 1 < B) (a : List Nat) (b : Nat) (hb0 : 0 < b) (hbB : b < B)
     (ha : ∀ d ∈ a, d < B) :
     val B (div1Low B a b).1 * b + (div1Low B a b).2 = val B a ∧ (div1Low B a b).2 < b
     ∧ (∀ d ∈ (div1Low B a b).1, d < B) ∧ (div1Low B a b).1.length = a.length := by
-  sorry
+  obtain ⟨h1, h2, h3, h4⟩ := div1LowRev_spec B b hb0 a.reverse 0 hb0 (forall_mem_reverse ha)
+  have heq : div1Low B a b =
+      ((div1LowRev B b a.reverse 0).1.reverse, (div1LowRev B b a.reverse 0).2) := by
+    simp only [div1Low]
+  rw [heq]
+  simp only [List.reverse_reverse, Nat.zero_mul, Nat.zero_add] at h1
+  exact ⟨h1, h2, forall_mem_reverse h3, by simpa using h4⟩
 
+theorem dvCmpRev_spec (B : Nat) :
+    ∀ (l m : List Nat), l.length = m.length → (∀ d ∈ l, d < B) → (∀ d ∈ m, d < B) →
+      (dvCmpRev l m = 1 ↔ val B l.reverse > val B m.reverse)
+      ∧ (dvCmpRev l m = -1 ↔ val B l.reverse < val B m.reverse)
+      ∧ (dvCmpRev l m = 0 ↔ val B l.reverse = val B m.reverse) := by
+  intro l
+  induction l with
+  | nil =>
+    intro m hlen _ _
+    cases m with
+    | nil => simp [dvCmpRev, val]
+    | cons _ _ => simp at hlen
+  | cons x xs ih =>
+    intro m hlen hl hm
+    cases m with
+    | nil => simp at hlen
+    | cons y ys =>
+      simp only [List.length_cons, Nat.add_right_cancel_iff] at hlen
+      have hl' : ∀ d ∈ xs, d < B := fun d hd => hl d (by simp [hd])
+      have hm' : ∀ d ∈ ys, d < B := fun d hd => hm d (by simp [hd])
+      have hX := val_lt B xs.reverse (forall_mem_reverse hl')
+      have hY := val_lt B ys.reverse (forall_mem_reverse hm')
+      simp only [List.length_reverse] at hX hY
+      rw [← hlen] at hY
+      simp only [val_reverse_cons, ← hlen]
+      by_cases h1 : x > y
+      · have e : dvCmpRev (x :: xs) (y :: ys) = 1 := by simp only [dvCmpRev, if_pos h1]
+        have : B ^ xs.length * (y + 1) ≤ B ^ xs.length * x := Nat.mul_le_mul_left _ h1
+        rw [Nat.mul_add, Nat.mul_one] at this
+        rw [e]
+        refine ⟨⟨fun _ => by omega, fun _ => rfl⟩, ⟨fun h => by simp at h, fun h => by omega⟩,
+          ⟨fun h => by simp at h, fun h => by omega⟩⟩
+      · by_cases h2 : x < y
+        · have e : dvCmpRev (x :: xs) (y :: ys) = -1 := by
+            simp only [dvCmpRev, if_neg h1, if_pos h2]
+          have : B ^ xs.length * (x + 1) ≤ B ^ xs.length * y := Nat.mul_le_mul_left _ h2
+          rw [Nat.mul_add, Nat.mul_one] at this
+          rw [e]
+          refine ⟨⟨fun h => by simp at h, fun h => by omega⟩, ⟨fun _ => by omega, fun _ => rfl⟩,
+            ⟨fun h => by simp at h, fun h => by omega⟩⟩
+        · have hxy : x = y := by omega
+          subst hxy
+          have e : dvCmpRev (x :: xs) (x :: ys) = dvCmpRev xs ys := by
+            simp only [dvCmpRev, if_neg h1]
+          rw [e]
+          obtain ⟨i1, i2, i3⟩ := ih ys hlen hl' hm'
+          rw [i1, i2, i3]
+          refine ⟨by omega, by omega, by omega⟩
+
+set_option linter.unusedVariables false in
 /-- dv_cmp orders digit vectors of equal length like their values -/
 theorem dvCmp_spec (B : Nat) (hB : 1 < B) (a b : List Nat) (hl : a.length = b.length)
     (ha : ∀ d ∈ a, d < B) (hb : ∀ d ∈ b, d < B) :
     (dvCmp a b = 1 ↔ val B a > val B b) ∧ (dvCmp a b = -1 ↔ val B a < val B b)
     ∧ (dvCmp a b = 0 ↔ val B a = val B b) := by
-  sorry
+  have := dvCmpRev_spec B a.reverse b.reverse (by simpa using hl)
+    (forall_mem_reverse ha) (forall_mem_reverse hb)
+  simpa only [List.reverse_reverse, dvCmp] using this
 
 end Relic.Model
